@@ -120,6 +120,7 @@ func (w *zzvWorld) persisted() (map[string]uint64, []string) {
 			continue
 		}
 		for name, v := range cf.Values {
+			name = zzvAlias(name)
 			key := e.Name() + "\x00" + name
 			if v < w.lastVal[key] {
 				errs = append(errs, fmt.Sprintf("value of %q decreased from %d to %d", zzvShort(name), w.lastVal[key], v))
@@ -145,7 +146,7 @@ func zzvShort(s string) string {
 func (w *zzvWorld) pending() map[string]uint64 {
 	p := map[string]uint64{}
 	for _, c := range w.ctrs {
-		p[c.name] += zzvExtra(c)
+		p[zzvAlias(c.name)] += zzvExtra(c)
 	}
 	return p
 }
@@ -286,4 +287,13 @@ func zzvReplay(path string, find func(name string) *sched.Scenario) {
 		fmt.Println("VIOLATION-REPRODUCED:", v)
 	}
 	os.Exit(1)
+}
+
+// zzvAlias maps the encoded names of the scenario's stack counter (one call site, so one
+// call stack) to the stack counter's own name, under which its increments are booked.
+func zzvAlias(name string) string {
+	if strings.HasPrefix(name, "stk\n") {
+		return "stk"
+	}
+	return name
 }
